@@ -50,6 +50,13 @@ def handleHash (blob : Blob) (cmd : String) (toks : List String) : String :=
       let _ := bufs
       s!"hash={hashHex (hw.hash P)} written={hw.written.length}"
     | _, _ => "bad-op"
+  | "hashedwrite.retry", [off, len, events] =>
+    -- a caller loop re-presenting the rest after each transient inner error (event 0); events = what the inner writer was asked
+    match off.toNat?, len.toNat? with
+    | some o, some l =>
+      let hw := HW.writeRetry HW.init (sliceL blob o l) (natList events)
+      s!"hash={hashHex (hw.hash P)} written={hw.written.length}"
+    | _, _ => "bad-op"
   | _, _ => "bad-op"
 
 end Xet.Drv
